@@ -55,21 +55,37 @@ pub fn c16_build(raw: &Raw, _tier: Tier, _sched: bool) -> Scenario {
     let alphabet = 2 + (knob(raw, 2) % 4) as u8;
     let sel = b.sub(SubKind::Selector { fresh: false });
     b.s.prelude.push(Op::Subscribe { store: s, sub: sel });
+    let mut sels = vec![sel];
     if knob(raw, 3) % 2 == 0 {
         let sel2 = b.sub(SubKind::Selector { fresh: false });
         b.s.prelude.push(Op::Subscribe { store: s, sub: sel2 });
+        sels.push(sel2);
     }
+    // a third of the cases end a subscription mid-run (from a client thread, or from inside the
+    // first subscription's callback, so that the notification in flight still reaches the other):
+    // whatever the subscription is still told must be deduplicated like the rest of its stream
+    let unsubs = knob(raw, 7) % 3 == 0;
+    let mut acts = vec![];
     for ops in raw.threads.iter() {
         let th = b.thread();
         for r in ops {
             // runs of equal values are common: repeat the previous value half of the time
             let v = if r.k % 2 == 0 { (r.a % alphabet as u16) as u8 } else { ((r.a >> 4) % 2) as u8 };
             let a = b.action(s, v);
+            acts.push(a);
             if r.k % 16 == 15 {
                 b.act_mut(a).keep = vec![r0];
             }
             b.s.threads[th].push(Op::Dispatch { act: a, via: via_of(r) });
+            if unsubs && (r.k >> 4) % 16 == 7 {
+                b.s.threads[th].push(Op::Unsubscribe { store: s, sub: sels[pick(r.b, sels.len())] });
+            }
         }
+    }
+    if unsubs && knob(raw, 8) % 2 == 0 && !acts.is_empty() {
+        let trigger = acts[pick(knob(raw, 9), acts.len())];
+        let victim = sels[pick(knob(raw, 10), sels.len())];
+        b.sub_mut(sel).on_notify_ops.push((trigger, vec![Op::Unsubscribe { store: s, sub: victim }]));
     }
     b.s.epilogue.push(Op::Stop { store: s, via_trait: false });
     b.finish()
@@ -157,6 +173,12 @@ pub fn c16_check(scn: &Scenario, h: &History) -> Outcome {
         if adjacent_repeat && returns {
             out.nontrivial = true;
         }
+        if d.stores[s].subs.iter().any(|(x, iv)| x == sub && iv.unsub_inv.is_some()) {
+            out.class("unsubscribed-mid-run");
+        }
+    }
+    if h.recs.iter().any(|r| matches!(r.ev, Ev::Inv { th, .. } if th >= 3000)) {
+        out.class("unsubscribe-from-inside-the-callback");
     }
     out
 }
@@ -219,11 +241,11 @@ pub fn c16_extra(_tier: Tier) -> ExtraResult {
 
 pub static C16: Profile = Profile {
     id: "C16",
-    rule: "(1) enumeration: every sequence of selected values over {0,1,2} of length 0..=8 (9841 sequences) fed straight to SelectorSubscriber::on_notify; (2) proptest: sequences of up to 2x60 (quick) / 2x100 (thorough) actions over alphabets of 2-5 selected values through a running store with 1-2 selector subscriptions and 1-2 producers (Keep actions interspersed); in a third of the cases one SelectorSubscriber object is registered on two stores fed concurrently (it must never deliver the value it delivered last). Oracle O-SELECT: delivered (value, action) list = consecutive-duplicate removal of the notification stream. Non-trivial = the stream contains an adjacent repeat AND a later return to an earlier value; distinct by scenario hash (random part) / by sequence (enumeration).",
+    rule: "(1) enumeration: every sequence of selected values over {0,1,2} of length 0..=8 (9841 sequences) fed straight to SelectorSubscriber::on_notify; (2) proptest: sequences of up to 2x60 (quick) / 2x100 (thorough) actions over alphabets of 2-5 selected values through a running store with 1-2 selector subscriptions and 1-2 producers (Keep actions interspersed; in a third of these a subscription is ended mid-run by a client thread or from inside the first subscription's own callback, so that a notification already in flight still reaches it); in a third of the cases one SelectorSubscriber object is registered on two stores fed concurrently (it must never deliver the value it delivered last). Oracle O-SELECT: delivered (value, action) list = consecutive-duplicate removal of the notification stream. Non-trivial = the stream contains an adjacent repeat AND a later return to an earlier value; distinct by scenario hash (random part) / by sequence (enumeration).",
     raw: c16_raw,
     build: c16_build,
     check: c16_check,
-    budget: Budget { r_cases: (2000, 20000), s_cases: (600, 3000), s_scheds: (4, 8) },
+    budget: Budget { r_cases: (2000, 20000), s_cases: (2000, 8000), s_scheds: (8, 32) },
     liveness: false,
     enumerate: None,
     extra: Some(c16_extra),
